@@ -63,10 +63,15 @@ def case_for(cid, decls, bpj, ideal=None, entities=None, c20=False, mems=None, h
     exposed = set(ex.used_inputs)
     qs = []
     outs = []
+    bqs = []
     for var, csig, en in ex.anchors():
         if var not in names:
             continue
         i = names.index(var)
+        if decls[i][0] == "bundle":
+            bqs.append(f"{{| bq_decl := {i}%nat; bq_rn := {ex.nid(en, 1)}; bq_gn := {ex.nid(en, 2)} |}}")
+            outs.append((var, "<bundle>"))
+            continue
         if csig is None:
             continue
         qs.append(
@@ -104,6 +109,9 @@ def case_for(cid, decls, bpj, ideal=None, entities=None, c20=False, mems=None, h
         + f"Definition rs_{cid} : list ent_req := [{'; '.join(rs)}].\n"
     )
     expr = f"ok (check_prog bp_{cid} {n + 2}%nat ds_{cid} qs_{cid} rs_{cid})"
+    if bqs:
+        defs += f"Definition bqs_{cid} : list bout_req := [{'; '.join(bqs)}].\n"
+        expr = f"ok (check_progb bp_{cid} {n + 2}%nat ds_{cid} qs_{cid} rs_{cid} bqs_{cid})"
 
     if c20:
         anch = [names.index(v) for v, _, _ in ex.anchors() if v in names]
@@ -214,7 +222,7 @@ def case_for(cid, decls, bpj, ideal=None, entities=None, c20=False, mems=None, h
                     vname = decls[m["ir"]][1] if is_last else None
                     var = input_vars[vname] if is_last else (900 + len(cut))
                     cut.append(f"({i}%nat, [({sg}, {var}%positive)])")
-                    stages.append(f"{{| r_ent := {i}%nat; r_sig := {sg}; r_var := {var}%positive |}}")
+                    stages.append(f"{{| sg_ent := {i}%nat; sg_sig := {sg}; sg_var := {var}%positive |}}")
                 rings.append((stages, fa.coq_expr(m["data"], ex.sig)))
         defs += f"Definition cut_{cid} : cut_t := [{'; '.join(cut)}].\n"
         parts = []
